@@ -41,6 +41,10 @@ def odd_names(w=3):
     o3 <<= d2 & ~d10
     o4 = pyrtl.Output(w, 'res[9]')
     o4 <<= d10 | d2
+    # names with non-ASCII letters / digits (word characters for Python's \\w, not for Verilog)
+    u1, u2 = pyrtl.Input(w, 'entr\u00e9e'), pyrtl.Input(w, 'x\u00b2')
+    o5 = pyrtl.Output(w, 'r\u00e9sultat')
+    o5 <<= u1 ^ u2
 
 
 def module_replay(design, add_reset, inputs, regs, mems):
@@ -91,14 +95,47 @@ def static_replay(design, add_reset):
     from fam import designs
     from spec import vsem
     block = designs.build(design)
-    probs = static_problems(block, vsem.parse_module(export(block, add_reset)), add_reset)
+    text = export(block, add_reset)
+    try:
+        m = vsem.parse_module(text)
+    except vsem.VError as e:
+        # the emitted text is outside the Verilog-2001 subset the exporter is specified to produce
+        return dict(failed=True, observed='emitted module is not legal Verilog-2001 (%s)' % str(e)[:120],
+                    expected='a module in the emitted subset')
+    probs = static_problems(block, m, add_reset)
     return dict(failed=bool(probs), observed=probs, expected=[])
+
+
+V2001_KEYWORDS = set('''always and assign automatic begin buf bufif0 bufif1 case casex casez cell cmos config
+deassign default defparam design disable edge else end endcase endconfig endfunction endgenerate endmodule
+endprimitive endspecify endtable endtask event for force forever fork function generate genvar highz0 highz1 if
+ifnone incdir include initial inout input instance integer join large liblist library localparam macromodule medium
+module nand negedge nmos nor noshowcancelled not notif0 notif1 or output parameter pmos posedge primitive pull0
+pull1 pulldown pullup pulsestyle_onevent pulsestyle_ondetect rcmos real realtime reg release repeat rnmos rpmos
+rtran rtranif0 rtranif1 scalared showcancelled signed small specify specparam strong0 strong1 supply0 supply1
+table task time tran tranif0 tranif1 tri tri0 tri1 triand trior trireg unsigned use vectored wait wand weak0 weak1
+while wire wor xnor xor'''.split())
+
+
+def illegal_identifiers(names):
+    """names that are not Verilog-2001 simple identifiers (ASCII letters, digits, _ and $, not
+    starting with a digit or $, not a keyword) - judged independently of the exporter's sanitiser"""
+    import re
+    bad = []
+    for n in names:
+        if not re.fullmatch(r'[A-Za-z_][A-Za-z0-9_$]*', n, flags=re.ASCII) or n in V2001_KEYWORDS:
+            bad.append(n)
+    return sorted(set(bad))
 
 
 def static_problems(block, m, add_reset):
     import pyrtl
     nm = name_map(block)
     probs = []
+    bad = illegal_identifiers(list(m.ports) + list(m.inputs) + list(m.outputs) + list(m.regs) + list(m.wires) +
+                              list(m.mems))
+    if bad:
+        probs.append('identifiers that are not legal Verilog-2001: %s' % bad[:5])
     for cls, table in ((pyrtl.Input, m.inputs), (pyrtl.Output, m.outputs), (pyrtl.Register, m.regs)):
         for w in block.wirevector_subset(cls):
             if table.get(nm[w.name]) != w.bitwidth:
